@@ -91,3 +91,30 @@ class _:
     ensures = {"C01.fresh-library": "fresh(result)"}
     raises = {}
     modifies = ["Field._value", "String._value", "dict:str:any"]
+
+
+EP = "bibtexparser.entrypoint."
+
+
+@contract(EP + "_build_parse_stack#both-none")
+class _:
+    """no stack and no addition given: the default parse stack, both middlewares in place (the same clause as in
+    contracts/entrypoint.py, re-proved here because that module also declares the virtual contract of
+    Middleware.transform, which this composition must not use)"""
+    sorts = {"parse_stack": "none", "append_middleware": "none", "result": "list:ref:Middleware"}
+    ensures = {"C20.default-parse-stack": "fresh(result) and len(result) == 2 and cls_is(result[0], 'ResolveStringReferencesMiddleware') and cls_is(result[1], 'RemoveEnclosingMiddleware') and fresh(result[0]) and fresh(result[1]) and allocated(result[0]) and allocated(result[1]) and result[0]._allow_inplace_modification and result[1]._allow_inplace_modification"}
+    raises = {}
+    modifies = []
+
+
+@contract(EP + "parse_string#default")
+class _:
+    """parse_string(text) with the default stack and no target library never raises and returns a Library: split (proved,
+    A-RE assumed) establishes parsed_ok, string-reference resolution keeps it, enclosing removal needs it"""
+    uses_marks = True
+    sorts = {"bibtex_str": "str", "parse_stack": "none", "append_middleware": "none", "library": "none", "result": "ref:Library"}
+    locals = {"library": "ref:Library"}
+    loops = {1: {"unroll": 2, "props": ("C01",)}}     # the default stack has exactly two middlewares
+    ensures = {"C01.returns-library": "allocated(result)"}
+    raises = {}
+    modifies = ["*"]
